@@ -510,3 +510,171 @@ Example fix_if_assign_partial_nontrivial :
             SIf (Unknown 2 []) [SAssign 1 (RVal (VBool false))] [SAssign 1 (RVal (VBool true))]] in
   fia_safe (fuel_of p) p = true /\ fix_if_assign_model p <> p.
 Proof. split; [reflexivity|discriminate]. Qed.
+
+(* ------------------------------------------------------------------------------------------ *)
+(* swap_if_else *)
+Lemma negate_sound t o st :
+  truthy (fst (eval_test o st (negate t))) = negb (truthy (fst (eval_test o st t)))
+  /\ snd (eval_test o st (negate t)) = snd (eval_test o st t).
+Proof.
+  destruct t as [b|i rd|u]; unfold negate.
+  - simpl. auto.
+  - rewrite tnot_val. simpl. auto.
+  - rewrite tnot_val. simpl. rewrite negb_involutive. auto.
+Qed.
+
+Lemma nopass_equiv b : equiv (nopass b) b.
+Proof.
+  induction b as [|s b IH]; simpl; [apply equiv_refl|].
+  destruct s; simpl; try (apply equiv_cons; exact IH).
+  eapply equiv_trans; [exact IH|]. apply equiv_sym, equiv_pass_cons.
+Qed.
+
+Lemma swap_local t b e : equiv [SIf t b e] [SIf (negate t) e (nopass b)].
+Proof.
+  intros o st r. rewrite !runs_single. simpl.
+  destruct (negate_sound t o st) as [Hv Hs]. rewrite Hv, Hs.
+  destruct (truthy (fst (eval_test o st t))); simpl; [|tauto].
+  symmetry. apply nopass_equiv.
+Qed.
+
+Lemma sw_sound n : (forall p, equiv p (sw n p)) /\ (forall e, equiv e (sw_else n e)).
+Proof.
+  induction n as [|n [IHp IHe]]; split; intros; simpl; try apply equiv_refl.
+  - apply map_equiv. intros s _. destruct s; try apply equiv_refl.
+    + destruct (swap_site body orelse); [apply swap_local|apply equiv_if; auto].
+    + apply equiv_loop; auto.
+  - destruct e as [|s tl]; [apply IHp|].
+    destruct s; try apply IHp. destruct tl; [|apply IHp]. apply equiv_if; auto.
+Qed.
+
+Lemma fix5_sound pass : (forall p, equiv p (pass p)) -> forall p, equiv p (fix5 pass p).
+Proof.
+  intros H p. unfold fix5.
+  destruct (_ || _ || _ || _); [apply equiv_refl|].
+  eapply equiv_trans; [apply H|]. eapply equiv_trans; [apply H|]. eapply equiv_trans; [apply H|].
+  eapply equiv_trans; [apply H|]. apply H.
+Qed.
+
+Lemma swap_explicit_sound p : equiv p (swap_explicit p).
+Proof. apply fix5_sound. intros q. apply (proj1 (sw_sound (fuel_of q))). Qed.
+
+Lemma implicit_else t b rest : blocks b -> equiv (SIf t b [] :: rest) [SIf t b rest].
+Proof.
+  intros Hb. apply equiv_sym. pose proof (redundant_else t b rest [] Hb) as H.
+  rewrite app_nil_r in H. exact H.
+Qed.
+
+Lemma implicit_site_sound s rest q : implicit_site s rest = Some q -> equiv (s :: rest) q.
+Proof.
+  unfold implicit_site. destruct s; try discriminate. destruct orelse; try discriminate.
+  destruct rest as [|x xs]; try discriminate.
+  destruct (anyb body && anyb (x :: xs) && opab body (x :: xs)) eqn:E; [|discriminate].
+  intros H; inversion H; subst. apply andb_true_iff in E. destruct E as [E _].
+  apply andb_true_iff in E. destruct E as [E _].
+  eapply equiv_trans; [apply implicit_else, anyb_blocks, E|]. apply swap_local.
+Qed.
+
+Lemma swi_sound n : forall p q, swi n p = Some q -> equiv p q.
+Proof.
+  induction n as [|n IH]; intros p q H; [discriminate|]. simpl in H.
+  destruct p as [|s rest]; [discriminate|].
+  destruct (implicit_site s rest) as [q0|] eqn:Ei.
+  - inversion H; subst. apply implicit_site_sound; exact Ei.
+  - destruct s; simpl in H;
+      try (destruct (swi n rest) as [r'|] eqn:Er; [|discriminate]; inversion H; subst;
+           apply equiv_cons, IH, Er).
+    + destruct (swi n body) as [b'|] eqn:Eb.
+      * inversion H; subst. apply (equiv_app [_] [_] rest rest); [|apply equiv_refl].
+        apply equiv_if; [apply IH, Eb|apply equiv_refl].
+      * destruct (swi n orelse) as [e'|] eqn:Ee; simpl in H.
+        -- inversion H; subst. apply (equiv_app [_] [_] rest rest); [|apply equiv_refl].
+           apply equiv_if; [apply equiv_refl|apply IH, Ee].
+        -- destruct (swi n rest) as [r'|] eqn:Er; [|discriminate]. inversion H; subst.
+           apply equiv_cons, IH, Er.
+    + destruct (swi n body) as [b'|] eqn:Eb.
+      * inversion H; subst. apply (equiv_app [_] [_] rest rest); [|apply equiv_refl].
+        apply equiv_loop; [apply IH, Eb|apply equiv_refl].
+      * destruct (swi n orelse) as [e'|] eqn:Ee; simpl in H.
+        -- inversion H; subst. apply (equiv_app [_] [_] rest rest); [|apply equiv_refl].
+           apply equiv_loop; [apply equiv_refl|apply IH, Ee].
+        -- destruct (swi n rest) as [r'|] eqn:Er; [|discriminate]. inversion H; subst.
+           apply equiv_cons, IH, Er.
+Qed.
+
+Theorem swap_if_else_preserves p : equiv p (swap_if_else_model p).
+Proof.
+  unfold swap_if_else_model. destruct (swi (fuel_of p) p) as [q|] eqn:E.
+  - eapply equiv_trans; [apply (swi_sound _ _ _ E)|].
+    eapply equiv_trans; apply swap_explicit_sound.
+  - apply swap_explicit_sound.
+Qed.
+
+(* the negation used by the rule is exact on truthiness and evaluates the same calls *)
+Theorem negate_complements t o st :
+  truthy (fst (eval_test o st (negate t))) = negb (truthy (fst (eval_test o st t)))
+  /\ snd (eval_test o st (negate t)) = snd (eval_test o st t).
+Proof. apply negate_sound. Qed.
+
+(* ------------------------------------------------------------------------------------------ *)
+(* delete_unreachable_code *)
+Lemma cut_after q rest : blocks q -> equiv (q ++ rest) q.
+Proof.
+  intros Hb o st r. rewrite runs_app. split.
+  - intros [[out1 st1] [H1 H2]]. pose proof (Hb _ _ _ _ H1).
+    destruct out1; simpl in H2; try congruence.
+  - intros H. exists r. split; [exact H|]. destruct r as [out1 st1].
+    pose proof (Hb _ _ _ _ H). destruct out1; simpl; congruence.
+Qed.
+
+Lemma blocks_equiv p q : equiv p q -> blocks p -> blocks q.
+Proof. intros He Hb o st out st' Hr. apply He in Hr. eapply Hb; eauto. Qed.
+
+Lemma duc_sound n :
+  (forall p, equiv p (duc_scan n p)) /\ (forall p, equiv p (duc_plain n p)) /\
+  (forall s, equiv [s] (duc_stmt n s)) /\ (forall e, equiv e (duc_else n e)).
+Proof.
+  induction n as [|n (IHs & IHp & IHt & IHe)]; (split; [|split; [|split]]); intros; simpl;
+    try apply equiv_refl.
+  - (* scan *)
+    destruct p as [|s rest]; [apply equiv_refl|].
+    destruct (anyb (duc_stmt n s)) eqn:Ea.
+    + rewrite app_nil_r. eapply equiv_trans; [|apply cut_after with (rest := rest), anyb_blocks, Ea].
+      apply (equiv_app [s] (duc_stmt n s) rest rest); [apply IHt|apply equiv_refl].
+    + apply (equiv_app [s] (duc_stmt n s) rest (duc_scan n rest)); [apply IHt|apply IHs].
+  - (* plain *)
+    apply flat_map_equiv. apply IHt.
+  - (* stmt *)
+    destruct s; try apply equiv_refl.
+    + assert (Hb : equiv body (fixb (duc_plain n body))).
+      { eapply equiv_trans; [apply IHp|apply equiv_sym, fixb_equiv]. }
+      destruct (tval t) as [[|]|] eqn:Et.
+      * eapply equiv_trans; [apply if_true; exact Et|].
+        eapply equiv_trans; [exact Hb|]. apply equiv_sym, if_true; exact Et.
+      * pose proof (IHe orelse) as He.
+        destruct (duc_else n orelse) as [|x xs] eqn:Ed.
+        -- eapply equiv_trans; [apply if_false; exact Et|exact He].
+        -- eapply equiv_trans; [apply if_false; exact Et|].
+           eapply equiv_trans; [exact He|]. apply equiv_sym, if_false; exact Et.
+      * apply equiv_if; auto.
+    + destruct h as [t|it].
+      * assert (Hb : equiv body (fixb (duc_plain n body))).
+        { eapply equiv_trans; [apply IHp|apply equiv_sym, fixb_equiv]. }
+        assert (He : equiv orelse (fixe orelse (duc_plain n orelse))) by (apply fixe_equiv, IHp).
+        destruct (tval t) as [[|]|] eqn:Et; try (apply equiv_loop; auto).
+        destruct orelse as [|x xs].
+        -- apply while_false; exact Et.
+        -- eapply equiv_trans; [apply while_false; exact Et|].
+           eapply equiv_trans; [exact He|]. apply equiv_sym, while_false; exact Et.
+      * apply equiv_loop.
+        -- eapply equiv_trans; [apply IHs|apply equiv_sym, fixb_equiv].
+        -- apply fixe_equiv, IHp.
+  - (* else *)
+    destruct (is_elif e); [apply IHp|apply fixe_equiv, IHp].
+Qed.
+
+Theorem delete_unreachable_code_preserves p : equiv p (delete_unreachable_code_model p).
+Proof.
+  unfold delete_unreachable_code_model.
+  eapply equiv_trans; [apply (proj1 (duc_sound (2 * fuel_of p)))|apply equiv_sym, fixb_equiv].
+Qed.
